@@ -15,6 +15,11 @@ package c16
 //	          and hands the channel to the host for the rest
 //
 // Expected: every item exactly once; in order (per worker for workers).
+//
+// This sub-check does not switch GOMAXPROCS: with the race detector, Go 1.23's runtime now and then
+// dies in (*p).destroy -> racectxend(pp.timers.raceCtx) (SIGSEGV in __tsan::ThreadContext::OnFinished)
+// when GOMAXPROCS shrinks after a timer has fired on a P that goes away, and the long runs here let
+// the watchdog's timer fire on every P (seen about once per 5000 switches that followed such a run).
 
 import (
 	"fmt"
@@ -36,7 +41,6 @@ type CapCase struct {
 	Tail  int    `json:"tail,omitempty"`
 	Head  int    `json:"head,omitempty"`
 	Drain string `json:"drain"` // forin | ok2 | expr
-	Procs int    `json:"procs"`
 }
 
 const capScriptMax = 140000 // items a script sends one by one (13 us each under the race detector)
@@ -70,7 +74,6 @@ func genCap(t *rapid.T, thorough bool) CapCase {
 	c := CapCase{
 		Type:  rapid.SampledFrom([]string{"int64", "int64", "interface", "interface", "float64"}).Draw(t, "type"),
 		Drain: rapid.SampledFrom([]string{"forin", "forin", "ok2", "expr"}).Draw(t, "drain"),
-		Procs: rapid.SampledFrom([]int{1, 2, 16}).Draw(t, "procs"),
 		Mode:  "script",
 	}
 	band := rapid.SampledFrom([]string{"small", "small", "medium", "medium", "medium", "large", "large", "large", "large", "huge"}).Draw(t, "band")
@@ -184,14 +187,14 @@ func oracleCap(c CapCase, o *h.Obs) *h.Fail {
 		max = capHostMax
 	}
 	if !oneOf(c.Type, "int64", "float64", "interface") || !oneOf(c.Mode, "script", "workers", "hostfill") || !oneOf(c.Drain, "forin", "ok2", "expr") ||
-		c.Buf < 0 || c.Buf > max || c.Short < 0 || n < 0 || c.Procs < 1 || c.Procs > 64 ||
+		c.Buf < 0 || c.Buf > max || c.Short < 0 || n < 0 ||
 		(c.Mode == "workers" && (c.W < 2 || c.W > 4 || c.Buf > 10000)) ||
 		(c.Mode == "hostfill" && (c.Tail < 0 || c.Tail > 2000 || c.Tail > n || c.Head < 0 || c.Head > 2000)) {
 		o.Excluded = "malformed_case"
 		return nil
 	}
 	src := capSource(c)
-	o.Key = fmt.Sprintf("%s|%d", src, c.Procs)
+	o.Key = src
 	if hangSeen["capacity"] && !ctxRef.InReplay() {
 		o.Excluded = "a run that does not finish was already reported by this process"
 		return nil
@@ -268,9 +271,9 @@ func oracleCap(c CapCase, o *h.Obs) *h.Fail {
 			}
 		},
 	}
-	var r *runResult
-	withProcs(c.Procs, func() { r = runOnceWith(src, 3*runDeadline, 1<<40, extra) })
-	head := fmt.Sprintf("GOMAXPROCS=%d\nsource:\n%s", c.Procs, src)
+	// GOMAXPROCS is left as it is (see the note at the top of the file)
+	head := "source:\n" + src
+	r := runOnceWith(src, 3*runDeadline, 1<<40, extra)
 	mu.Lock()
 	defer mu.Unlock()
 	switch {
